@@ -193,7 +193,8 @@ impl P {
         };
         let k = &self.toks[i];
         tr.emit(&json!({"a":"use","tok":k.name,"login":k.login,"priv":k.privileged,"issue":k.issue,"at":k.at,"t":at,
-            "scope":scope,"res":res,"sessexp":self.sessexp,"privexp":self.privexp}));
+            // the person policy (idm_all_persons) does not cover the service account: shipped default applies
+            "scope":scope,"res":res,"sessexp": if k.login == "genpw" { 86400 } else { self.sessexp },"privexp":self.privexp}));
     }
 
     async fn sess_exp(&mut self, acct: u64, sid: Uuid) -> i64 {
